@@ -42,7 +42,8 @@ def check_tref(ctx, K):
                       "%s=%s" % (kw, A.unparse(v) if v is not None else "not passed (samples.t_ref would be None / defaults)"), key="%s:%s" % (q, kw))
     ctx.floor(R, n, 2)
     go = ctx.prog.func(SM, "JokerSamples.get_orbit", R)
-    el = [s for s in A.walk_local(go) if isinstance(s, ast.Assign) and dotted(s.targets[0]) == "orbit.elements.t0"]
+    ORB = _orb(go)
+    el = [s for s in A.walk_local(go) if isinstance(s, ast.Assign) and dotted(s.targets[0]) == ORB + ".elements.t0"]
     ctx.check(R, el[0] if el else go, "get_orbit: elements.t0 = self.t_ref", len(el) == 1 and canon(el[0].value) == "self.t_ref", "elements.t0 = %s" % (A.unparse(el[0].value) if el else "not set"), key="orbit-t0")
     vt = [c for c in A.calls_in(go) if A.call_name(c) == "PolynomialRVTrend"]
     okv = len(vt) == 1 and canon(A.get_arg(vt[0], None, "t0") or ast.Constant(value=None)) == "self.t_ref"
@@ -52,15 +53,23 @@ def check_tref(ctx, K):
     ctx.check(R, tr, "samples.t_ref is the stored metadata", len(rr) == 1 and canon(rr[0].value) == canon(parse("self.tbl.meta['t_ref']")), "t_ref = %s" % (A.unparse(rr[0].value) if rr else None), key="t_ref-prop", nontrivial=False)
 
 
+def _orb(go):
+    """name of the orbit object get_orbit builds and returns"""
+    rets = [s for s in A.walk_local(go) if isinstance(s, ast.Return) and isinstance(s.value, ast.Name)]
+    names = {s.value.id for s in rets}
+    return names.pop() if len(names) == 1 else "orbit"
+
+
 def check_map(ctx):
     R = "C04-MAP"
     ctx.rule(R, "get_orbit: element _X is column X (P, e, omega, M0) at the requested index; a = P K / (2 pi) sqrt(1 - e^2); trend coefficients are the columns named by "
                 "get_linear_equiv_units(poly_trend) minus K, in order, at the same index; every linear column of the table (K, v_i, dv0_k) enters the reconstructed model.")
     go = ctx.prog.func(SM, "JokerSamples.get_orbit", R)
     flow = A.Flow(go)
+    ORB = _orb(go)
     want = {"orbit.elements._P": "self['P'][INDEX]", "orbit.elements._e": "self['e'][INDEX] * u.dimensionless_unscaled", "orbit.elements._omega": "self['omega'][INDEX]", "orbit.elements._M0": "self['M0'][INDEX]"}
     for tgt, src in want.items():
-        st = [s for s in A.walk_local(go) if isinstance(s, ast.Assign) and dotted(s.targets[0]) == tgt]
+        st = [s for s in A.walk_local(go) if isinstance(s, ast.Assign) and dotted(s.targets[0]) == ORB + tgt[len("orbit"):]]
         ok = False
         why = "%s not assigned" % tgt
         if len(st) == 1:
@@ -69,7 +78,7 @@ def check_map(ctx):
             ok = canon(v) == canon(parse(src))
             why = "%s = %s" % (tgt, A.unparse(v)[:70])
         ctx.check(R, st[0] if st else go, "%s <- column %s" % (tgt.split(".")[-1], src.split("'")[1]), ok, why, key=tgt)
-    sa = [s for s in A.walk_local(go) if isinstance(s, ast.Assign) and dotted(s.targets[0]) == "orbit.elements._a"]
+    sa = [s for s in A.walk_local(go) if isinstance(s, ast.Assign) and dotted(s.targets[0]) == ORB + ".elements._a"]
     ok = False
     why = "_a not assigned"
     if len(sa) == 1:
